@@ -1,0 +1,34 @@
+//go:build verif
+
+package job
+
+// Contracts for fvc (see /verif/DESIGN.md). Comment-only file.
+
+// ---- timeout.go --------------------------------------------------------------
+
+//@ pure ttlSeconds(rj *execution.Job, cfg *configv1alpha1.JobExecutionConfig) Int =
+//@     rj.Spec.TTLSecondsAfterFinished != nil ? *rj.Spec.TTLSecondsAfterFinished
+//@     : (cfg.DefaultTTLSecondsAfterFinished != nil ? *cfg.DefaultTTLSecondsAfterFinished : 0)
+
+//@ func GetTTLAfterFinished
+//@   tags C13
+//@   safety overflow, nil
+//@   requires rj != nil && cfg != nil
+//@   ensures [C13] ttl-value: result == ttlSeconds(rj, cfg) * 1000000000
+
+//@ pure pendingTimeoutSeconds(rj *execution.Job, cfg *configv1alpha1.JobExecutionConfig) Int =
+//@     (rj.Spec.Template.TaskPendingTimeoutSeconds != nil && *rj.Spec.Template.TaskPendingTimeoutSeconds >= 0)
+//@     ? *rj.Spec.Template.TaskPendingTimeoutSeconds
+//@     : (cfg.DefaultPendingTimeoutSeconds != nil ? *cfg.DefaultPendingTimeoutSeconds : 0)
+
+//@ func GetPendingTimeout
+//@   tags C12
+//@   safety overflow, nil
+//@   requires rj != nil && cfg != nil && rj.Spec.Template != nil
+//@   ensures [C12] pending-value: result == pendingTimeoutSeconds(rj, cfg) * 1000000000
+
+//@ func GetForceDeleteTimeout
+//@   tags C12
+//@   safety overflow, nil
+//@   requires cfg != nil
+//@   ensures [C12] force-value: result == (cfg.ForceDeleteTaskTimeoutSeconds != nil ? *cfg.ForceDeleteTaskTimeoutSeconds : 0) * 1000000000
